@@ -7,7 +7,8 @@
    with reserved_slots, the search for the first clear bit (inline loop or the first_clear_bit helper, whose body is checked),
    the slot stored in the method, the two set_bit, the loop over the class's transitive bases, and the loop over its covariant
    classes with, for each one other than the class itself, the merge into its used slots and the loop over ITS transitive bases.
-   assign_tree_slots and assign_slots are matched on the AST as a whole.  Here: running the translated body is
+   assign_tree_slots, the rest of assign_lattice_slots and assign_slots are lowered statement by statement into the second language
+   of Model/MiniSlot.v (gen_tree_slots, gen_lattice_slots, gen_assign_slots), the two recursive functions run on fuel.  Here: running the translated body is
    Model.Compile.lattice_assign — the function the theorems of C04 (no two (method, parameter) pairs visible from one class
    share a slot; every slot a call reads was assigned by this update) are about — for every lattice and every slot state.
 
@@ -15,7 +16,7 @@
    detail::set_bit are read as `|=` on unbounded bit sets (boost::dynamic_bitset grown on demand by those two helpers). *)
 From Coq Require Import List NArith.
 Import ListNotations.
-From Y2 Require Import Model.Registry Model.Compile Model.MiniSlot Gen.GenSlot Proofs.SlotSource.
+From Y2 Require Import Model.Registry Model.Compile Spec.Dispatch Proofs.Interfaces Model.MiniSlot Gen.GenSlot Proofs.SlotSource Proofs.SlotCompose.
 
 Theorem C04_source_lattice_assign : forall L c mp st, c < length (s_used st) ->
   run_lattice_assign L c mp gen_lattice_assign st = Some (lattice_assign L c st mp).
@@ -34,6 +35,45 @@ Example ex_slot :
   let st := mk_ss [[0]] [0; 0; 0]%N [0; 0; 0]%N [false; false; false] [0; 0; 0] [0; 0; 0] true in
   match run_lattice_assign L 2 (0, 0) gen_lattice_assign st with
   | Some st' => s_resv st' = [1; 1; 1]%N /\ s_used st' = [0; 0; 1]%N /\ st' = lattice_assign L 2 st (0, 0)
+  | None => False
+  end.
+Proof. vm_compute. repeat split. Qed.
+
+(* ------------------------------------------------------------------ the functions around that body *)
+
+(* assign_tree_slots as translated, at every depth of recursion the model allows, is Model.Compile.assign_tree *)
+Theorem C04_source_assign_tree : forall L ms fuel c base st,
+  tree_fun fuel L ms gen_tree_slots c base st = Some (assign_tree fuel L ms st c base).
+Proof. exact src_assign_tree. Qed.
+Print Assumptions C04_source_assign_tree.
+
+(* assign_lattice_slots as translated (mark guard, the body above for every used_by_vp entry, the recursion over direct_derived) *)
+Theorem C04_source_assign_lattice : forall L ms n, (forall c d, In d (nth c (l_derived L) []) -> d < n) ->
+  forall fuel c st, c < n -> length (s_used st) = n /\ length (s_first st) = n ->
+  lat_fun fuel L ms gen_lattice_assign gen_lattice_slots c st = Some (assign_lattice fuel L ms st c).
+Proof. exact src_assign_lattice. Qed.
+Print Assumptions C04_source_assign_lattice.
+
+(* assign_slots as translated, calling the two translated functions: the whole slot allocation of Model.Compile *)
+Theorem C04_source_assign_slots : forall L ms, lat_wf L ->
+  run_assign_slots L ms gen_lattice_assign gen_tree_slots gen_lattice_slots gen_assign_slots = Some (assign_slots L ms).
+Proof. exact src_assign_slots_wf. Qed.
+Print Assumptions C04_source_assign_slots.
+
+(* ... and for every well-formed registry these are the slots and first-slot offsets `compile` installs *)
+Theorem C04_source_slots_compile : forall R C, wf_registry R -> compile R = Ok C ->
+  exists st, run_assign_slots (o_lat C) (o_meths C) gen_lattice_assign gen_tree_slots gen_lattice_slots gen_assign_slots = Some st /\
+             o_slots C = s_slots st /\ o_first C = s_first st.
+Proof. exact src_slots_compile. Qed.
+Print Assumptions C04_source_slots_compile.
+
+(* non-vacuity: the diamond 0 <- {1, 2} <- 3 with one method parameter on 0 and one on 2: a lattice walk from the root *)
+Example ex_assign_slots :
+  let L := mk_lat [1; 2; 3; 4]%N [] [[]; [0]; [0]; [1; 2; 0]] [[]; [0]; [0]; [1; 2]] [[1; 2]; [3]; [3]; []]
+                  [[0; 1; 2; 3]; [1; 3]; [2; 3]; [3]] in
+  let ms := [mk_cmeth [0] [] [] []; mk_cmeth [2] [] [] []] in
+  match run_assign_slots L ms gen_lattice_assign gen_tree_slots gen_lattice_slots gen_assign_slots with
+  | Some st => st = assign_slots L ms /\ s_slots st = [[0]; [1]] /\ s_fuel_ok st = true
   | None => False
   end.
 Proof. vm_compute. repeat split. Qed.
